@@ -1,8 +1,102 @@
 import Driver.Util
-/-! Driver commands: Aof (stub — replaced by the real handler). -/
+import Slock.Model.Aof
+/-! Driver commands for M-AOF.
+
+* `aofload <cfgBuf> <now> <rechex>:<dathex|x> …` → `<hex64>/<blobhex|n>,… ;ok|err` (records handed to the engine by `LoadAofFiles`)
+* `aofappend <cfgBuf> <rechex>:<dathex|x> <hex64>/<blobhex|n>,…` → `<rechex>:<dathex>` (reopen in append mode, write, close)
+* `aofwrites <cfgBuf> <hex64>/<blobhex|n>,…` → `rec:dat,…` sizes after each writer call
+* `aofdl <eflag> <E> <grant> <journal> <reload>` → `commandTime age stored skipped restoredExpried`
+* `aofcompact <cfgBuf> <cur> <name>=<hex> …` → directory after each file-system mutation of a compaction with keep = none
+* `aofrecover <cfgBuf> <now> <name>=<hex> …` → records recovered at start-up, or `finderr`
+-/
 namespace Driver
+open Slock.Aof
+
+def showRec (r : Rec) : String :=
+  toHex r.buf ++ "/" ++ (match r.data with | none => "n" | some d => showHex d)
+
+def showRecs (rs : List Rec) : String :=
+  if rs.isEmpty then "-" else ",".intercalate (rs.map showRec)
+
+def parseImg (s : String) : Option FileImg :=
+  match s.splitOn ":" with
+  | [a, b] => do
+    let rec ← parseHex a
+    if b == "x" then pure ⟨rec, none⟩ else do
+      let d ← parseHex b
+      pure ⟨rec, some d⟩
+  | _ => none
+
+def parseRec (s : String) : Option Rec :=
+  match s.splitOn "/" with
+  | [a, b] => do
+    let buf ← parseHex a
+    if b == "n" then pure ⟨buf, none⟩ else do
+      let d ← parseHex b
+      pure ⟨buf, some d⟩
+  | _ => none
+
+def parseRecs (s : String) : Option (List Rec) :=
+  if s == "-" then some [] else (s.splitOn ",").mapM parseRec
+
+def parseDirEntry (s : String) : Option (String × Bytes) :=
+  match s.splitOn "=" with
+  | [a, b] => (parseHex b).map (fun x => (a, x))
+  | _ => none
+
+def parseDir (ts : List String) : Option Dir :=
+  match ts with
+  | ["-"] => some []
+  | _ => ts.mapM parseDirEntry
+
+def sortDir (d : Dir) : Dir := (d.toArray.qsort (fun a b => a.1 < b.1)).toList
+
+def showDir (d : Dir) : String :=
+  if d.isEmpty then "-" else " ".intercalate ((sortDir d).map (fun f => f.1 ++ "=" ++ showHex f.2))
+
+def showImg (rec dat : Bytes) : String := showHex rec ++ ":" ++ showHex dat
 
 def handleAof : List String → Option String
+  | "aofload" :: cfg :: now :: files => do
+    let cfg ← cfg.toNat?
+    let now ← now.toInt?
+    let imgs ← files.mapM parseImg
+    let (rs, ok) := loadFiles cfg now imgs
+    pure (showRecs rs ++ ";" ++ (if ok then "ok" else "err"))
+  | ["aofappend", cfg, img, more] => do
+    let cfg ← cfg.toNat?
+    let img ← parseImg img
+    let more ← parseRecs more
+    let (r, d) := appendAfterRestart cfg img.log img.dat more
+    pure (showImg r d)
+  | ["aofwrites", cfg, recs] => do
+    let cfg ← cfg.toNat?
+    let recs ← parseRecs recs
+    pure (",".intercalate ((writeSizes cfg recs).map (fun p => toString p.1 ++ ":" ++ toString p.2)))
+  | ["aofdl", ef, e, s, c, n] => do
+    let ef ← ef.toNat?
+    let e ← e.toNat?
+    let s ← s.toInt?
+    let c ← c.toInt?
+    let n ← n.toInt?
+    let (ct, age, rem, sk, re) := journalReload ef e s c n
+    pure (s!"{ct} {age} {rem} {if sk then 1 else 0} {re}")
+  | "aofcompact" :: cfg :: cur :: dir => do
+    let cfg ← cfg.toNat?
+    let cur ← cur.toNat?
+    let d ← parseDir dir
+    let steps := compactionSteps cfg 0 (fun _ => false) cur d
+    -- observation points of the harness: after the tmp file is written, then after every remove / rename
+    let nWrite := steps.length - (steps.filter (fun o => match o with | .remove _ => true | .rename _ _ => true | _ => false)).length
+    let pts := (List.range (steps.length - nWrite + 1)).map (· + nWrite)
+    pure (" | ".intercalate (pts.map (fun i => showDir (applyPrefix i steps d))))
+  | "aofrecover" :: cfg :: now :: dir => do
+    let cfg ← cfg.toNat?
+    let now ← now.toInt?
+    let d ← parseDir dir
+    match recoverDir cfg now d with
+    | none => pure "err"
+    | some rs => pure (showRecs rs ++ ";ok")
   | _ => none
 
 end Driver
